@@ -185,7 +185,7 @@ class Ctx(object):
         self.exhaustive = []          # names of sub-domains enumerated fully
         self.notes = []
         self.collect_only = True
-        self.t0 = time.time()
+        self.t0 = time.monotonic()
 
     @property
     def quick(self):
@@ -247,7 +247,7 @@ class Ctx(object):
             'failures': [f.to_json() for f in self.failures.values()],
             'excluded_known': dict(self.excluded_known),
             'exhaustive': self.exhaustive, 'notes': self.notes,
-            'wall_s': time.time() - self.t0,
+            'wall_s': time.monotonic() - self.t0,
         }
 
 
